@@ -3,7 +3,7 @@ ID = "C09"
 LEVEL = "model_checking"
 MODULES = {"c09": dict(harness=["c09_delete.cpp"], entries=()), "c09file": dict(harness=["fm_delete.cpp"], entries=("h_delverts",))}
 BOUNDS = {
-    "quick": {"file_level": "DeleteVertsForShape on 4-vertex shapes of six versions (unskinned, skinned, skinned+LOCKEDNORM), k<=2 symbolic sorted indices, second deletion, save+reload", "vertices_n": "1..4", "triangles_t": "0..2", "deleted_k": "1..n (every sorted in-range list, symbolic)", "strip_points": "<=4", "skin": "<=2 bones x <=3 weights; 1 partition, vertex map <=3, <=2 triangles, mapped and true indices, list and strip form", "segments": "FO4: 2 segments (first with 2 sub-segments), SSE: 3 segments, symbolic split points"},
+    "quick": {"file_level": "DeleteVertsForShape on 4-vertex shapes of six versions (unskinned, skinned, skinned+LOCKEDNORM), k<=2 symbolic sorted indices, second deletion, save+reload", "vertices_n": "1..4", "triangles_t": "0..2", "deleted_k": "1..n (every sorted in-range list, symbolic)", "strip_points": "<=4", "skin": "<=2 bones x <=3 weights; 1 partition, vertex map <=3, <=2 triangles, mapped and true indices, list and strip form", "segments": "FO4: 2 segments (first with 2 sub-segments), SSE: 3 segments, symbolic split points; FO4 also a second single-vertex deletion on the same object"},
     "thorough": {"vertices_n": "1..5", "triangles_t": "0..3", "deleted_k": "1..n", "strip_points": "<=5", "skin": "<=2 bones x <=4 weights; vertex map <=4, <=3 triangles", "segments": "as quick"},
 }
 ASSUMPTIONS = [
@@ -36,8 +36,10 @@ def jobs(tier, seed):
                     J.append(dict(entry="h_bstri", args=[1, n, t, k], budget=bud))
                     J.append(dict(entry="h_bstri", args=[2, n, t, k], budget=bud))
                 if t >= 1 and n <= (3 if tier == "quick" else 4):
-                    J.append(dict(entry="h_bssits", args=[1, n, t, k], budget=bud))
-                    J.append(dict(entry="h_bssits", args=[0, n, t, k], budget=bud))
+                    J.append(dict(entry="h_bssits", args=[1, n, t, k, 0], budget=bud))
+                    J.append(dict(entry="h_bssits", args=[0, n, t, k, 0], budget=bud))
+                    if k == 1 and n >= 2 and t >= 2:
+                        J.append(dict(entry="h_bssits", args=[1, n, t, k, 1], budget=bud))
             J.append(dict(entry="h_geomdata", args=[1, n, 0, k], budget=bud))
             J.append(dict(entry="h_lines", args=[n, k], budget=bud))
             for ln in range(0, N + 1):
